@@ -35,6 +35,12 @@ pub open spec fn rv_post(req: VersionReq, cutoff: Option<NewestDependencyDate>, 
     }
 }
 
+/// "unless the package is excluded from that rule": by exact name or by a name prefix
+pub open spec fn pkg_excluded(o: NewestDependencyDateOptions, name: PackageName) -> bool {
+    o.exclude_jsr_pkgs@.contains(name)
+      || exists|i: int| 0 <= i < o.exclude_jsr_pkg_prefixes@.len() && pn_text(#[trigger] o.exclude_jsr_pkg_prefixes@[i]).is_prefix_of(pn_text(name))
+}
+
 // ---- the four tiers of C06, as predicates on a candidate version `w`
 pub open spec fn in_existing(existing: Seq<&Version>, w: Version) -> bool {
     exists|i: int| 0 <= i < existing.len() && *(#[trigger] existing[i]) == w
@@ -49,11 +55,29 @@ pub open spec fn registry_ok(req: VersionReq, cutoff: Option<NewestDependencyDat
 pub open spec fn tier_cached(req: VersionReq, cutoff: Option<NewestDependencyDate>, info: JsrPackageInfo, cached: Set<Version>, w: Version) -> bool {
     registry_ok(req, cutoff, info, false, w) && cached.contains(w)
 }
-pub open spec fn is_best(v: Version, p: spec_fn(Version) -> bool) -> bool {
-    p(v) && forall|w: Version| #[trigger] p(w) ==> !v_lt(v, w)
+// "highest ... that satisfies": maximal under the version order within the tier
+pub open spec fn best_t1(req: VersionReq, existing: Seq<&Version>, v: Version) -> bool {
+    tier1(req, existing, v) && forall|w: Version| #[trigger] tier1(req, existing, w) ==> !v_lt(v, w)
 }
-pub open spec fn none_of(p: spec_fn(Version) -> bool) -> bool {
-    forall|w: Version| !#[trigger] p(w)
+pub open spec fn none_t1(req: VersionReq, existing: Seq<&Version>) -> bool {
+    forall|w: Version| !#[trigger] tier1(req, existing, w)
+}
+pub open spec fn best_reg(req: VersionReq, cutoff: Option<NewestDependencyDate>, info: JsrPackageInfo, yanked: bool, v: Version) -> bool {
+    registry_ok(req, cutoff, info, yanked, v)
+      && forall|w: Version| #[trigger] registry_ok(req, cutoff, info, yanked, w) ==> !v_lt(v, w)
+}
+pub open spec fn none_reg(req: VersionReq, cutoff: Option<NewestDependencyDate>, info: JsrPackageInfo, yanked: bool) -> bool {
+    forall|w: Version| !#[trigger] registry_ok(req, cutoff, info, yanked, w)
+}
+pub open spec fn best_cached(req: VersionReq, cutoff: Option<NewestDependencyDate>, info: JsrPackageInfo, cached: Set<Version>, v: Version) -> bool {
+    tier_cached(req, cutoff, info, cached, v)
+      && forall|w: Version| #[trigger] tier_cached(req, cutoff, info, cached, w) ==> !v_lt(v, w)
+}
+pub open spec fn none_cached(req: VersionReq, cutoff: Option<NewestDependencyDate>, info: JsrPackageInfo, cached: Set<Version>) -> bool {
+    forall|w: Version| !#[trigger] tier_cached(req, cutoff, info, cached, w)
+}
+pub open spec fn some_registry_match(req: VersionReq, info: JsrPackageInfo) -> bool {
+    exists|w: Version| info.versions@.contains_key(w) && #[trigger] req_matches(req, w)
 }
 
 /// The selection rule of C06.
@@ -62,30 +86,197 @@ pub open spec fn select_post(
     cutoff: Option<NewestDependencyDate>,
     r: Result<JsrVersionResolverResolvedVersion, JsrPackageReqNotFoundError>,
 ) -> bool {
-    let t1 = |w: Version| tier1(req.version_req, existing, w);
-    let tc = |w: Version| tier_cached(req.version_req, cutoff, info, cached, w);
-    let t2 = |w: Version| registry_ok(req.version_req, cutoff, info, false, w);
-    let t3 = |w: Version| registry_ok(req.version_req, cutoff, info, true, w);
+    let vr = req.version_req;
     match r {
         Ok(res) => {
-            if !none_of(t1) {
+            if !none_t1(vr, existing) {
                 // highest already-selected version that satisfies the requirement (no date rule)
-                is_best(*res.version, t1)
+                best_t1(vr, existing, *res.version)
                   && res.is_yanked == (info.versions@.contains_key(*res.version) && info.versions@[*res.version].yanked)
-            } else if cached.len() != 0 && !none_of(tc) {
-                is_best(*res.version, tc) && !res.is_yanked
-            } else if !none_of(t2) {
-                is_best(*res.version, t2) && !res.is_yanked
+            } else if cached.len() != 0 && !none_cached(vr, cutoff, info, cached) {
+                // cached-manifest mode: highest non-yanked eligible version whose manifest is cached
+                best_cached(vr, cutoff, info, cached, *res.version) && !res.is_yanked
+            } else if !none_reg(vr, cutoff, info, false) {
+                // highest non-yanked eligible registry version
+                best_reg(vr, cutoff, info, false, *res.version) && !res.is_yanked
             } else {
-                is_best(*res.version, t3) && res.is_yanked
+                // otherwise the highest yanked eligible version, flagged as yanked
+                best_reg(vr, cutoff, info, true, *res.version) && res.is_yanked
             }
         },
         Err(e) => {
-            &&& none_of(t1) && none_of(t2) && none_of(t3)
+            &&& none_t1(vr, existing) && none_reg(vr, cutoff, info, false) && none_reg(vr, cutoff, info, true)
             &&& e.req == req
-            &&& e.newest_dependency_date == (
-                  if exists|w: Version| info.versions@.contains_key(w) && #[trigger] req_matches(req.version_req, w) { cutoff } else { None })
+            // "says when a newer match was excluded by date"
+            &&& e.newest_dependency_date == (if some_registry_match(vr, info) { cutoff } else { None })
         },
+    }
+}
+
+/// `fm` enumerates exactly the registry entries whose yanked flag is `yanked`
+/// (and, when `cached` is given, whose version is in the cached set).
+pub open spec fn seq_is_registry(info: JsrPackageInfo, yanked: bool, cached: Option<Set<Version>>, fm: Seq<VItem>) -> bool {
+    &&& forall|j: int| 0 <= j < fm.len() ==> {
+          let w = *(#[trigger] fm[j]).0;
+          info.versions@.contains_key(w) && fm[j].1 == Some(&info.versions@[w]) && info.versions@[w].yanked == yanked
+            && (cached is Some ==> cached.unwrap().contains(w))
+        }
+    &&& forall|w: Version| #![trigger info.versions@.contains_key(w)]
+          info.versions@.contains_key(w) && info.versions@[w].yanked == yanked && (cached is Some ==> cached.unwrap().contains(w))
+            ==> exists|j: int| 0 <= j < fm.len() && *(#[trigger] fm[j]).0 == w
+}
+
+pub proof fn lemma_registry_tier(req: VersionReq, cutoff: Option<NewestDependencyDate>, info: JsrPackageInfo, yanked: bool, fm: Seq<VItem>, r: ResolveVersionResult)
+    requires
+        seq_is_registry(info, yanked, None, fm),
+        rv_post(req, cutoff, fm, r),
+    ensures
+        match r {
+            ResolveVersionResult::Some(v) => best_reg(req, cutoff, info, yanked, *v),
+            ResolveVersionResult::None { had_higher_date_version } =>
+                none_reg(req, cutoff, info, yanked)
+                && (had_higher_date_version <==> exists|w: Version| info.versions@.contains_key(w) && info.versions@[w].yanked == yanked && #[trigger] req_matches(req, w)),
+        },
+{
+    match r {
+        ResolveVersionResult::Some(v) => {
+            let i = choose|i: int| 0 <= i < fm.len() && *(#[trigger] fm[i]).0 == *v && item_ok(req, cutoff, fm[i]);
+            assert(registry_ok(req, cutoff, info, yanked, *v));
+            assert forall|w: Version| #[trigger] registry_ok(req, cutoff, info, yanked, w) implies !v_lt(*v, w) by {
+                let j = choose|j: int| 0 <= j < fm.len() && *(#[trigger] fm[j]).0 == w;
+                assert(item_ok(req, cutoff, fm[j]));
+            }
+        },
+        ResolveVersionResult::None { had_higher_date_version } => {
+            assert forall|w: Version| !#[trigger] registry_ok(req, cutoff, info, yanked, w) by {
+                if registry_ok(req, cutoff, info, yanked, w) {
+                    let j = choose|j: int| 0 <= j < fm.len() && *(#[trigger] fm[j]).0 == w;
+                    assert(item_ok(req, cutoff, fm[j]));
+                }
+            }
+            if had_higher_date_version {
+                let j = choose|j: int| 0 <= j < fm.len() && req_matches(req, *(#[trigger] fm[j]).0);
+                let w = *fm[j].0;
+                assert(info.versions@.contains_key(w) && info.versions@[w].yanked == yanked && req_matches(req, w));
+            }
+            if exists|w: Version| info.versions@.contains_key(w) && info.versions@[w].yanked == yanked && #[trigger] req_matches(req, w) {
+                let w = choose|w: Version| info.versions@.contains_key(w) && info.versions@[w].yanked == yanked && #[trigger] req_matches(req, w);
+                let j = choose|j: int| 0 <= j < fm.len() && *(#[trigger] fm[j]).0 == w;
+                assert(req_matches(req, *fm[j].0));
+            }
+        },
+    }
+}
+
+pub proof fn lemma_cached_tier(req: VersionReq, cutoff: Option<NewestDependencyDate>, info: JsrPackageInfo, cached: Set<Version>, fm: Seq<VItem>, r: ResolveVersionResult)
+    requires
+        seq_is_registry(info, false, Some(cached), fm),
+        rv_post(req, cutoff, fm, r),
+    ensures
+        match r {
+            ResolveVersionResult::Some(v) => best_cached(req, cutoff, info, cached, *v),
+            ResolveVersionResult::None { .. } => none_cached(req, cutoff, info, cached),
+        },
+{
+    match r {
+        ResolveVersionResult::Some(v) => {
+            let i = choose|i: int| 0 <= i < fm.len() && *(#[trigger] fm[i]).0 == *v && item_ok(req, cutoff, fm[i]);
+            assert(tier_cached(req, cutoff, info, cached, *v));
+            assert forall|w: Version| #[trigger] tier_cached(req, cutoff, info, cached, w) implies !v_lt(*v, w) by {
+                let j = choose|j: int| 0 <= j < fm.len() && *(#[trigger] fm[j]).0 == w;
+                assert(item_ok(req, cutoff, fm[j]));
+            }
+        },
+        ResolveVersionResult::None { .. } => {
+            assert forall|w: Version| !#[trigger] tier_cached(req, cutoff, info, cached, w) by {
+                if tier_cached(req, cutoff, info, cached, w) {
+                    let j = choose|j: int| 0 <= j < fm.len() && *(#[trigger] fm[j]).0 == w;
+                    assert(item_ok(req, cutoff, fm[j]));
+                }
+            }
+        },
+    }
+}
+
+/// tier 1: `m` is the element-wise image `(v, None)` of the already-selected versions
+pub proof fn lemma_existing_tier(req: VersionReq, existing: Seq<&Version>, m: Seq<VItem>, r: ResolveVersionResult)
+    requires
+        m.len() == existing.len(),
+        forall|i: int| 0 <= i < m.len() ==> #[trigger] m[i] == (existing[i], None::<&JsrPackageInfoVersion>),
+        rv_post(req, None, m, r),
+    ensures
+        match r {
+            ResolveVersionResult::Some(v) => best_t1(req, existing, *v),
+            ResolveVersionResult::None { .. } => none_t1(req, existing),
+        },
+{
+    match r {
+        ResolveVersionResult::Some(v) => {
+            let i = choose|i: int| 0 <= i < m.len() && *(#[trigger] m[i]).0 == *v && item_ok(req, None, m[i]);
+            assert(*existing[i] == *v);
+            assert(tier1(req, existing, *v));
+            assert forall|w: Version| #[trigger] tier1(req, existing, w) implies !v_lt(*v, w) by {
+                let k = choose|k: int| 0 <= k < existing.len() && *(#[trigger] existing[k]) == w;
+                assert(item_ok(req, None, m[k]));
+            }
+        },
+        ResolveVersionResult::None { .. } => {
+            assert forall|w: Version| !#[trigger] tier1(req, existing, w) by {
+                if tier1(req, existing, w) {
+                    let k = choose|k: int| 0 <= k < existing.len() && *(#[trigger] existing[k]) == w;
+                    assert(item_ok(req, None, m[k]));
+                }
+            }
+        },
+    }
+}
+
+
+pub open spec fn reg_result(req: VersionReq, cutoff: Option<NewestDependencyDate>, info: JsrPackageInfo, yanked: bool, r: ResolveVersionResult) -> bool {
+    match r {
+        ResolveVersionResult::Some(v) => best_reg(req, cutoff, info, yanked, *v),
+        ResolveVersionResult::None { had_higher_date_version } =>
+            none_reg(req, cutoff, info, yanked)
+            && (had_higher_date_version <==> exists|w: Version| info.versions@.contains_key(w) && info.versions@[w].yanked == yanked && #[trigger] req_matches(req, w)),
+    }
+}
+pub open spec fn cached_result(req: VersionReq, cutoff: Option<NewestDependencyDate>, info: JsrPackageInfo, cached: Set<Version>, r: ResolveVersionResult) -> bool {
+    match r {
+        ResolveVersionResult::Some(v) => best_cached(req, cutoff, info, cached, *v),
+        ResolveVersionResult::None { .. } => none_cached(req, cutoff, info, cached),
+    }
+}
+pub open spec fn t1_result(req: VersionReq, existing: Seq<&Version>, r: ResolveVersionResult) -> bool {
+    match r {
+        ResolveVersionResult::Some(v) => best_t1(req, existing, *v),
+        ResolveVersionResult::None { .. } => none_t1(req, existing),
+    }
+}
+
+pub proof fn lemma_registry_tier_all(req: VersionReq, cutoff: Option<NewestDependencyDate>, info: JsrPackageInfo, yanked: bool, fm: Seq<VItem>)
+    requires seq_is_registry(info, yanked, None, fm),
+    ensures forall|r: ResolveVersionResult| #[trigger] rv_post(req, cutoff, fm, r) ==> reg_result(req, cutoff, info, yanked, r),
+{
+    assert forall|r: ResolveVersionResult| #[trigger] rv_post(req, cutoff, fm, r) implies reg_result(req, cutoff, info, yanked, r) by {
+        lemma_registry_tier(req, cutoff, info, yanked, fm, r);
+    }
+}
+pub proof fn lemma_cached_tier_all(req: VersionReq, cutoff: Option<NewestDependencyDate>, info: JsrPackageInfo, cached: Set<Version>, fm: Seq<VItem>)
+    requires seq_is_registry(info, false, Some(cached), fm),
+    ensures forall|r: ResolveVersionResult| #[trigger] rv_post(req, cutoff, fm, r) ==> cached_result(req, cutoff, info, cached, r),
+{
+    assert forall|r: ResolveVersionResult| #[trigger] rv_post(req, cutoff, fm, r) implies cached_result(req, cutoff, info, cached, r) by {
+        lemma_cached_tier(req, cutoff, info, cached, fm, r);
+    }
+}
+pub proof fn lemma_existing_tier_all(req: VersionReq, existing: Seq<&Version>, m: Seq<VItem>)
+    requires
+        m.len() == existing.len(),
+        forall|i: int| 0 <= i < m.len() ==> #[trigger] m[i] == (existing[i], None::<&JsrPackageInfoVersion>),
+    ensures forall|r: ResolveVersionResult| #[trigger] rv_post(req, None, m, r) ==> t1_result(req, existing, r),
+{
+    assert forall|r: ResolveVersionResult| #[trigger] rv_post(req, None, m, r) implies t1_result(req, existing, r) by {
+        lemma_existing_tier(req, existing, m, r);
     }
 }
 
